@@ -173,6 +173,31 @@ func readChunksSeq(mode cipher.BlockMode, chunks [][]byte, keepVars bool) (res [
 	return res
 }
 
+// readChunksAbandon is readChunks in which a nil chunk stands for "the caller gives the frame in progress up": it
+// empties its buffer and goes on with the same variables
+func readChunksAbandon(mode cipher.BlockMode, chunks [][]byte) (res []string) {
+	var buf []byte
+	var crcFlag bool
+	var frameSize uint32
+	var dataSize uint16
+	for _, c := range chunks {
+		if c == nil {
+			buf = buf[:0]
+			continue
+		}
+		res = append(res, func() (s string) {
+			defer func() {
+				if r := recover(); r != nil {
+					s = "panic"
+				}
+			}()
+			ms, err := rscp.Read(&mode, &buf, &crcFlag, &frameSize, &dataSize, append([]byte{}, c...))
+			return resMsgs(ms, err)
+		}())
+	}
+	return res
+}
+
 func readOnce(mode cipher.BlockMode, data []byte) string {
 	return readChunks(mode, [][]byte{data})[0]
 }
@@ -360,6 +385,25 @@ func init() {
 			}
 			key := string(g.bytes(1 + g.pick(32)))
 			rtCase(cw, ms, g.chance(0.5), key, g.time(), "random")
+		}
+		// a frame that is given up while incomplete (connection lost in the middle of a reply): the caller empties its
+		// buffer, keeps its other variables, and the next frame - longer, shorter, with and without checksum - decodes
+		for i := 0; i < 10+n/10; i++ {
+			a := plainFrame([]rscp.Message{{Tag: 0x00800001, DataType: rscp.ByteArray, Value: g.bytes(60 + g.pick(200))}}, i%2 == 0, g.time())
+			b := plainFrame(g.tree(), i%4 < 2, g.time())
+			if i%3 == 0 {
+				b = plainFrame([]rscp.Message{{Tag: 0x00800002, DataType: rscp.ByteArray, Value: g.bytes(300 + g.pick(200))}}, i%4 < 2, g.time())
+			}
+			if a == nil || b == nil || len(a) < 96 {
+				continue
+			}
+			fed := 32 * (1 + g.pick(len(a)/32-1))
+			res := readChunksAbandon(identityMode{}, [][]byte{a[:fed], nil, b})
+			prop := "pass"
+			if want := readOnce(identityMode{}, b); len(res) != 2 || res[1] != want {
+				prop = "FAIL C01 a frame that follows a frame given up while incomplete (buffer emptied by the caller) is not decoded as when it comes first: " + trunc(strings.Join(res, " | "), 120)
+			}
+			cw.add("decsa "+hexOf(a[:fed])+" X "+hexOf(b), strings.Join(res, " | "), "N frame-after-abandoned-frame", prop)
 		}
 		// streams whose frames alternate between the two checksum settings; among them pairs of frames of equal total
 		// size (a checksummed frame with n data bytes and an unchecksummed one with n+4)
@@ -588,11 +632,20 @@ func anyCase(cw *caseWriter, p []byte, label string) {
 }
 
 func chunkCase(cw *caseWriter, g *gen, p []byte, label string) {
+	chunkCaseCut(cw, g, p, label, 0)
+}
+
+// chunkCaseCut: cutAt > 0 asks for exactly two pieces, the first of cutAt blocks
+func chunkCaseCut(cw *caseWriter, g *gen, p []byte, label string, cutAt int) {
 	if len(p) < 64 || len(p)%32 != 0 {
 		return
 	}
 	nb := len(p) / 32
 	var chunks [][]byte
+	if cutAt > 0 && cutAt < nb {
+		chunks = [][]byte{p[:cutAt*32], p[cutAt*32:]}
+		nb = 0
+	}
 	for i := 0; i < nb; {
 		k := 1 + g.pick(3)
 		if g.chance(0.2) {
@@ -630,6 +683,18 @@ func chunkCase(cw *caseWriter, g *gen, p []byte, label string) {
 		}
 		if !early && (strings.HasPrefix(whole, "ok ") || strings.HasPrefix(last, "ok ")) && whole != last {
 			prop = "FAIL C03 delivered in pieces the frame gives " + trunc(last, 80) + ", in one piece " + trunc(whole, 80)
+		}
+		// the pieces of a well-formed frame never draw an error other than "incomplete"
+		if strings.HasPrefix(whole, "ok ") {
+			for _, r := range res {
+				if strings.HasPrefix(r, "err ") && r != "err invalidFrameLength" {
+					prop = "FAIL C03 a piece of a well-formed frame is answered with " + trunc(r, 60) + " instead of incomplete"
+					break
+				}
+				if r != "err invalidFrameLength" {
+					break
+				}
+			}
 		}
 	}
 	if !strings.HasPrefix(label, "N ") && !strings.HasPrefix(label, "T ") {
@@ -874,6 +939,20 @@ func init() {
 				}
 			}
 		}
+		// frames whose data ends exactly on a block boundary, so that of a checksummed frame only the checksum (and padding)
+		// is in the last block - cut there, and one block earlier
+		for k := 1; k <= 6; k++ {
+			for _, crc := range []bool{true, false} {
+				pl := plainFrame([]rscp.Message{{Tag: 0x00800001, DataType: rscp.ByteArray, Value: g.bytes(32*k - 18 - 7)}}, crc, g.time())
+				if pl == nil {
+					continue
+				}
+				chunkCaseCut(cw, g, pl, fmt.Sprintf("N data-ends-on-block-boundary k=%d crc=%v", k, crc), k)
+				if k > 1 {
+					chunkCaseCut(cw, g, pl, fmt.Sprintf("N data-ends-on-block-boundary k=%d crc=%v", k, crc), k-1)
+				}
+			}
+		}
 		// nothing but zero padding after the frame, however much: the largest frame plus one and plus five zero blocks, a
 		// small frame plus 2048 and 2100 zero blocks — whole and in pieces
 		{
@@ -1063,6 +1142,37 @@ func init() {
 			default:
 				ms[g.pick(len(ms))].Tag = g.respTags[g.pick(len(g.respTags))]
 				valCase(cw, ms, "response-tag")
+			}
+		}
+		// request lists whose encoded size is a multiple of 2^32 plus a little: many requests sharing one value, so that
+		// the list itself is small. Judged on the Go side alone (the text of such a list would be gigabytes): refused
+		for _, tc := range []struct{ per, count, extra int }{{32768, 131072, 0}, {32768, 131072, 20}, {65536 - 8, 65544, 64}, {32768, 262144, 0}, {16384, 262144 + 1, 0}} {
+			s := strings.Repeat("x", tc.per-7)
+			ms := make([]rscp.Message, tc.count, tc.count+1)
+			for k := range ms {
+				ms[k] = rscp.Message{Tag: rscp.INFO_REQ_UTC_TIME, DataType: rscp.CString, Value: s}
+			}
+			if tc.extra > 0 {
+				ms = append(ms, rscp.Message{Tag: rscp.INFO_REQ_UTC_TIME, DataType: rscp.CString, Value: strings.Repeat("y", tc.extra)})
+			}
+			for _, nested := range []bool{false, true} {
+				reqs := ms
+				if nested {
+					reqs = []rscp.Message{{Tag: rscp.BAT_REQ_DATA, DataType: rscp.Container, Value: ms}}
+				}
+				about(fmt.Sprintf("val of %d requests of %d bytes sharing one value (+%d) nested=%v", tc.count, tc.per, tc.extra, nested))
+				prop := "pass"
+				func() {
+					defer func() {
+						if r := recover(); r != nil {
+							prop = "FAIL C05 validating a request list of 4 GiB and more panics"
+						}
+					}()
+					if err := rscp.VerifValidateRequests(reqs); !errors.Is(err, rscp.ErrRscpDataLimitExceeded) {
+						prop = fmt.Sprintf("FAIL C05 %d requests of %d bytes each (+%d; one shared value, nested=%v) encode to %d bytes and are not refused as too large: %v", tc.count, tc.per, tc.extra, nested, uint64(tc.count)*uint64(tc.per)+uint64(tc.extra), err)
+					}
+				}()
+				cw.add("skip", "skip", "N val size-beyond-2^32", prop)
 			}
 		}
 		// all type codes with nil and with a byte value, top level and nested
